@@ -184,6 +184,19 @@ def obs_c08(case):
     return ev
 
 
+def obs_api(case):
+    """spec growth (UbxApi!ParseOutcome): the class of what UBXReader.parse returns / raises for a frame and a set of options"""
+    from pyubx2 import UBXMessage, UBXReader
+
+    f = bytes.fromhex(case["f"])
+    try:
+        m = UBXReader.parse(f, msgmode=case["mode"], validate=case["validate"], parsebitfield=case["pbf"])
+        out = "message" if isinstance(m, UBXMessage) else type(m).__name__
+    except Exception as ex:  # noqa: BLE001
+        out = type(ex).__name__
+    return {"prop": "EXT-api", "f": list(f), "mode": case["mode"], "validate": case["validate"], "pbf": case["pbf"], "out": out}
+
+
 def obs_gate(case):
     """spec growth: what each entry point makes of a msgmode value (everything else about the call is valid)"""
     import io
@@ -191,6 +204,44 @@ def obs_gate(case):
     from pyubx2 import UBXMessage, UBXReader
 
     api, m = case["api"], case["m"]
+    if api == "datastream":
+        # what the reader reads from, for five kinds of stream object: m = index
+        import socket as _socket
+
+        from pyubx2.socket_wrapper import SocketWrapper
+
+        class _TLS(_socket.socket):
+            def read(self, n=1024):
+                return b""
+
+            def recv(self, n, *a):
+                return b""
+
+        class _Plain(_socket.socket):
+            def recv(self, n, *a):
+                return b""
+
+        class _DuckRecv:
+            def recv(self, n):
+                return b""
+
+        class _DuckBoth:
+            def recv(self, n):
+                return b""
+
+            def read(self, n):
+                return b""
+
+        obj, kind = ((io.BytesIO(b""), [0, 1, 0]), (_Plain(), [1, 0, 1]), (_TLS(), [1, 1, 1]), (_DuckRecv(), [0, 0, 1]), (_DuckBoth(), [0, 1, 1]))[m % 5]
+        try:
+            ds = UBXReader(obj).datastream
+            out = "same" if ds is obj else "wrapper" if isinstance(ds, SocketWrapper) else "other"
+        except Exception as ex:  # noqa: BLE001
+            out = type(ex).__name__
+        finally:
+            if hasattr(obj, "close"):
+                obj.close()
+        return {"prop": "EXT-gate", "api": api, "m": m, "kind": kind, "out": out}
     try:
         if api == "reader":
             UBXReader(io.BytesIO(b""), msgmode=m)
@@ -201,9 +252,9 @@ def obs_gate(case):
         out = "ok"
     except Exception as ex:  # noqa: BLE001
         out = type(ex).__name__
-    return {"prop": "EXT-gate", "api": api, "m": m, "out": out}
+    return {"prop": "EXT-gate", "api": api, "m": m, "kind": [0, 0, 0], "out": out}
 
 
 from .race import obs_race  # noqa: E402
 
-OBSERVERS = {"c08": obs_c08, "c01": obs_c01, "c05_parse": obs_c05_parse, "c05_valnone": obs_c05_valnone, "race": obs_race, "gate": obs_gate}
+OBSERVERS = {"c08": obs_c08, "c01": obs_c01, "c05_parse": obs_c05_parse, "c05_valnone": obs_c05_valnone, "race": obs_race, "gate": obs_gate, "api": obs_api}
